@@ -86,7 +86,7 @@ CLAIMED = {
    design="§6 C16"),
  "C18": dict(
    technique="black-box process monitor of the real CLI binary: exit status, output capture, directory snapshots with sentinels, independent HEX decoding against the in-process library result (thorough: release binary and strace syscall log)",
-   text="The avra-rs binary is rebuilt from the working tree and run in fresh scratch directories over 14 sources x 5 stems x 6 -o/-e/-v option sets and 5 output faults on either output: on a failing build the exit status must be non-zero, something must be printed and no file may be created, removed or altered (sentinels at the default output places); on success the flash/EEPROM HEX files must sit at the documented paths and decode to exactly the images build_file returns in process; unwritable outputs must be reported with a non-zero status. Thorough adds the release binary and an strace leg showing that failing builds open nothing for writing.",
+   text="The avra-rs binary is rebuilt from the working tree and run in fresh scratch directories over 15 sources x 5 stems x 6 -o/-e/-v option sets and 5 output faults on either output: on a failing build the exit status must be non-zero, something must be printed and no file may be created, removed or altered (sentinels at the default output places); on success the flash/EEPROM HEX files must sit at the documented paths and decode to exactly the images build_file returns in process; unwritable outputs must be reported with a non-zero status. Thorough adds the release binary and an strace leg showing that failing builds open nothing for writing.",
    note="Expected images from the library in process (same file); decoding with refmodel/ihex.rs. An empty flash image producing no file is accepted. HOME/XDG_CONFIG_HOME point into the scratch directory.",
    design="§6 C18"),
  "C17": dict(
